@@ -240,7 +240,19 @@ class Executor(Evaluator):
         out = []
         for s0, c in self.eval_multi(stmt.test, st):
             if isinstance(c, Opaque):
-                c = fresh_bool("opaque")
+                # e.g. NUMBA_DISABLE_JIT: both dispatch branches are executed; identical resulting states are merged
+                a = self.exec_block(stmt.body, s0.fork())
+                b = self.exec_block(stmt.orelse, s0.fork())
+
+                def sig(s, oc):
+                    envs = tuple(sorted((k, "opaque" if isinstance(v, (Opaque, FuncRef)) else id(v) if not is_scalar(v) else str(v)) for k, v in s.env.items()))
+                    return (oc[0], envs, tuple(sorted((k, id(v)) for k, v in s.heap.items())), len(s.pc))
+
+                seen = {}
+                for s, oc in a + b:
+                    seen.setdefault(sig(s, oc), (s, oc))
+                out.extend(seen.values())
+                continue
             for s, taken in self.branch(s0, c):
                 out.extend(self.exec_block(stmt.body if taken else stmt.orelse, s))
         return out
